@@ -184,9 +184,27 @@ func legacyCalls(r *gen.Rand, res *c17Result) {
 		reflect.TypeOf(0), reflect.TypeOf(""), 5, "x", nil, reflect.TypeOf([]int{}), // not structs
 		c17PtrPtr(), reflect.TypeOf(c17PtrPtr()), new(int), []zoo.Leaf{{}}, map[string]*zoo.Leaf{}, &[]*zoo.Leaf{}, reflect.TypeOf(&[]*zoo.Leaf{}), // arguments the codec rejects
 	}
+	targets = append(targets, &zoo.ReqNode{}, reflect.TypeOf(zoo.LeafReq{})) // required fields on several nesting levels
 	for _, t := range targets {
 		if err := frugal.Pretouch(t, opts[:r.Intn(len(opts)+1)]...); err != nil {
 			res.PretouchErr++
+		}
+	}
+	// right after the legacy calls: a message whose outer struct lacks a required field that
+	// its nested struct (same field ids) carries is still refused, a complete one accepted
+	nested := []byte{0x0f, 0, 2, 0x0c, 0, 0, 0, 0, 0x08, 0, 3, 0, 0, 0, 5, 0} // {2: [], 3: 5}
+	incomplete := append(append([]byte{0x0c, 0, 1}, nested...), 0x0f, 0, 2, 0x0c, 0, 0, 0, 0, 0) // {1: nested, 2: []} - no field 3
+	complete := append(append([]byte{0x0c, 0, 1}, nested...), nested...)
+	if dr := fDecode(incomplete, &zoo.ReqNode{}); dr.panicked() || dr.err == nil {
+		res.RefMismatch++
+		if res.FirstMismatch == "" {
+			res.FirstMismatch = fmt.Sprintf("after legacy calls: a ReqNode message lacking the outer required field 3 was not refused (err=%v panic=%v)", dr.err, dr.pv)
+		}
+	}
+	if dr := fDecode(complete, &zoo.ReqNode{}); dr.panicked() || dr.err != nil {
+		res.RefMismatch++
+		if res.FirstMismatch == "" {
+			res.FirstMismatch = fmt.Sprintf("after legacy calls: a complete ReqNode message was refused (err=%v panic=%v)", dr.err, dr.pv)
 		}
 	}
 }
